@@ -399,3 +399,43 @@ Proof.
   - intros H c Hc a Ha. apply H. apply in_concat. exists c. auto.
   - intros H a Ha. apply in_concat in Ha as (c & Hc & Hac). eapply H; eauto.
 Qed.
+
+(* ------------------------------------------------------------ de-duplication of the candidates ------------------------------------------------------------ *)
+Lemma zin_In x l : zin x l = true <-> In x l.
+Proof.
+  induction l as [|y t IH]; cbn [zin In]; [split; [discriminate | tauto]|].
+  rewrite orb_true_iff, Z.eqb_eq, IH. split; intros [H|H]; auto.
+Qed.
+
+(* a candidate survives iff it is fresh: EVERY fresh candidate stays a candidate (one copy of it), nothing else does *)
+Lemma dedup_first_In seen l x : In x (dedup_first seen l) <-> In x l /\ ~ In x seen.
+Proof.
+  revert seen. induction l as [|y t IH]; intros seen; cbn [dedup_first]; [cbn; tauto|].
+  destruct (zin y seen) eqn:E.
+  - rewrite IH. apply zin_In in E. cbn [In]. split; [tauto|]. intros [[->|H] Hn]; [contradiction | tauto].
+  - assert (Hy : ~ In y seen) by (intros H; apply zin_In in H; congruence). cbn [In]. rewrite IH. cbn [In]. split.
+    + intros [->|[H Hn]]; [tauto|]. split; [tauto|]. intros Hs. apply Hn. right. exact Hs.
+    + intros [[->|H] Hn]; [left; reflexivity|]. destruct (Z.eq_dec y x) as [->|Hne]; [left; reflexivity|].
+      right. split; [exact H|]. intros [->|Hs]; [apply Hne; reflexivity | contradiction].
+Qed.
+
+Lemma dedup_first_NoDup seen l : NoDup (dedup_first seen l).
+Proof.
+  revert seen. induction l as [|y t IH]; intros seen; cbn [dedup_first]; [constructor|].
+  destruct (zin y seen); [apply IH|]. constructor; [|apply IH]. rewrite dedup_first_In. cbn [In]. tauto.
+Qed.
+
+(* the configuration handed out by a single ask = the first candidate of the batch that has not been handed out yet *)
+Lemma dedup_first_head seen l : hd_error (dedup_first seen l) = find (fun y => negb (zin y seen)) l.
+Proof.
+  induction l as [|y t IH]; cbn [dedup_first find hd_error]; [reflexivity|].
+  destruct (zin y seen); cbn [negb hd_error]; [exact IH | reflexivity].
+Qed.
+
+Lemma filter_dup_fresh hist batch x : In x batch -> ~ In x hist -> In x (filter_dup hist batch) /\ NoDup (filter_dup hist batch)
+  /\ hd_error (filter_dup hist batch) = find (fun y => negb (zin y hist)) batch.
+Proof.
+  intros Hb Hh. unfold filter_dup. assert (Hin : In x (dedup_first hist batch)) by (apply dedup_first_In; auto).
+  pose proof (dedup_first_NoDup hist batch) as Hnd. pose proof (dedup_first_head hist batch) as Hhd.
+  destruct (dedup_first hist batch) as [|r0 r]; [destruct Hin|]. auto.
+Qed.
